@@ -127,7 +127,7 @@ def pipeBurstLine (ts : List String) : String :=
       let tree := sortStr ((fin.fs.ents.filter (fun (e : Ent) => isUnder ["W"] e.path)).map
         (fun (e : Ent) => showP e.path ++ (if e.isDir then "/" else "")))
       some (" ; ".intercalate outs ++ " | tree=" ++ showList tree ++
-            s!" stopped={b01 fin.stopped} crashed={b01 fin.crashed}")).getD "bad-op"
+            s!" stopped={b01 fin.stopped} crashed={b01 fin.crashed} paced={b01 (s0.lib.recursive && pacedOKB s0 bursts)}")).getD "bad-op"
   | _ => "bad-op"
 
 /-- canonical rendering of the library's two watch maps (watch descriptors are compared through the pairing they
